@@ -7,8 +7,11 @@ import (
 	"sort"
 	"strings"
 
+	"regexp"
+
 	"github.com/mimecast/dtail/internal/io/fs"
 	"github.com/mimecast/dtail/internal/mapr"
+	"github.com/mimecast/dtail/internal/regex"
 )
 
 func genSetDump(s *mapr.AggregateSet) string {
@@ -61,5 +64,63 @@ func init() {
 			merr = "1"
 		}
 		return fmt.Sprintf("errs=%s|%s;merge=%s;%s", ex, ey, merr, genSetDump(x))
+	}
+
+	// gen.regex <new|wire> <invert01> <expression or wire form> <lines: hex,hex,..>
+	// new : regex.New(expr, flag) -> Serialize -> Deserialize -> Match on every line (client and server value)
+	// wire: regex.Deserialize(wire form as a client may forge it) -> Match on every line
+	// After '#': what Go's regexp says (does the expression compile; its verdict per line) for the model's Ext.
+	ops["gen.regex"] = func(a []string) string {
+		text := string(unhex(a[2]))
+		var lines [][]byte
+		for _, l := range strings.Split(a[3], ",") {
+			lines = append(lines, unhex(l))
+		}
+		bits := func(m func([]byte) bool) string {
+			var sb strings.Builder
+			for _, l := range lines {
+				if m(l) {
+					sb.WriteByte('1')
+				} else {
+					sb.WriteByte('0')
+				}
+			}
+			return sb.String()
+		}
+		expr := text
+		res := ""
+		if a[0] == "new" {
+			flag := regex.Default
+			if a[1] == "1" {
+				flag = regex.Invert
+			}
+			cl, err := regex.New(text, flag)
+			if err != nil {
+				res = "new-error"
+			} else if ser, err := cl.Serialize(); err != nil {
+				res = "serialize-error"
+			} else if sv, err := regex.Deserialize(ser); err != nil {
+				res = "deserialize-error"
+			} else {
+				res = hx([]byte(ser)) + ";" + bits(cl.Match) + ";" + bits(sv.Match)
+			}
+		} else {
+			if p := strings.SplitN(text, " ", 2); len(p) == 2 {
+				expr = p[1]
+			} else {
+				expr = ""
+			}
+			sv, err := regex.Deserialize(text)
+			if err != nil {
+				res = "deserialize-error"
+			} else {
+				res = bits(sv.Match)
+			}
+		}
+		re, err := regexp.Compile(expr)
+		if err != nil {
+			return res + "#0;-"
+		}
+		return res + "#1;" + bits(re.Match)
 	}
 }
